@@ -59,8 +59,8 @@ type c20Facts struct {
 	keep         int
 	keepLean     string
 	keepSrc      string
-	skipFuncs    []string // unicode.X functions used in RunPackedBinary
-	hasSkipLoop  bool
+	skipTab      [256]bool // is the byte skipped after the marker (evaluated from the code's predicate)
+	skipSrc      string
 	literalWhole bool     // packmarker is one string literal (then the binary itself contains it)
 	problems     []string // pieces of the source the extractor could not translate
 	mainFirst    bool     // first statement of main() is the unconditional call tool.RunPackedBinary()
@@ -68,9 +68,10 @@ type c20Facts struct {
 }
 
 type c20Eval struct {
-	fset  *token.FileSet
-	vars  map[string]ast.Expr
-	facts *c20Facts
+	fset   *token.FileSet
+	locals map[string]ast.Expr // local definitions of the function being looked at
+	vars   map[string]ast.Expr
+	facts  *c20Facts
 }
 
 func (e *c20Eval) src(x ast.Node) string {
@@ -95,7 +96,10 @@ func (e *c20Eval) str(x ast.Expr) ([][]byte, error) {
 		if v.Name == "packmarker" && e.facts.marker != nil {
 			return [][]byte{e.facts.marker}, nil
 		}
-		d, ok := e.vars[v.Name]
+		d, ok := e.locals[v.Name]
+		if !ok {
+			d, ok = e.vars[v.Name]
+		}
 		if !ok {
 			return nil, fmt.Errorf("unknown identifier %v", v.Name)
 		}
@@ -141,6 +145,9 @@ func (e *c20Eval) str(x ast.Expr) ([][]byte, error) {
 			}
 		}
 		if id, ok := v.Fun.(*ast.Ident); ok && id.Name == "string" && len(v.Args) == 1 {
+			return e.str(v.Args[0])
+		}
+		if _, ok := v.Fun.(*ast.ArrayType); ok && len(v.Args) == 1 { // []byte(x)
 			return e.str(v.Args[0])
 		}
 		if sel, ok := v.Fun.(*ast.SelectorExpr); ok && sel.Sel.Name == "Sprintf" && len(v.Args) >= 1 {
@@ -208,7 +215,10 @@ func (e *c20Eval) num(x ast.Expr) (int, string, error) {
 		case "b2":
 			return e.facts.b2, "b2", nil
 		}
-		d, ok := e.vars[v.Name]
+		d, ok := e.locals[v.Name]
+		if !ok {
+			d, ok = e.vars[v.Name]
+		}
 		if !ok {
 			return 0, "", fmt.Errorf("unknown identifier %v", v.Name)
 		}
@@ -226,6 +236,9 @@ func (e *c20Eval) num(x ast.Expr) (int, string, error) {
 				return 0, "", err
 			}
 			n := len(bytes.Join(p, nil))
+			if bytes.Equal(bytes.Join(p, nil), e.facts.marker) {
+				return n, "marker.length", nil
+			}
 			return n, fmt.Sprint(n), nil
 		}
 		if id, ok := v.Fun.(*ast.Ident); ok && (id.Name == "int" || id.Name == "int64") && len(v.Args) == 1 {
@@ -278,44 +291,68 @@ var c20Ref = struct {
 	bufSize, keep int
 }{"\n####ECALSRC####\n", 4096, 28, 4124, 16}
 
-// c20Extract reads the scanner geometry from cli/tool/pack.go and the call of
-// RunPackedBinary from cli/ecal.go. It only fails if pack.go cannot be read or parsed
-// (then the harness does not build either); everything it cannot translate becomes an
-// entry of facts.problems and the reference value is used instead.
+// c20Extract reads the scanner geometry from package cli/tool and the call of
+// RunPackedBinary from cli/ecal.go. It follows the CODE, not names: starting at
+// RunPackedBinary it searches the functions called from there (transitively, same
+// package) for the Read-into-buffer call, the carry-over copy and the skip loop.
+// It only fails if the package cannot be read or parsed (then the harness does not
+// build either). A piece it cannot POSITIVELY establish is "not translated": the
+// reference value is used and an entry is added to facts.problems — it never states a
+// negative fact (such as "nothing is kept") that it has not established.
 func c20Extract() (*c20Facts, error) {
-	path := filepath.Join(repoDir(), "cli", "tool", "pack.go")
-	src, err := os.ReadFile(path)
+	dir := filepath.Join(repoDir(), "cli", "tool")
+	ents, err := os.ReadDir(dir)
 	if err != nil {
 		return nil, err
 	}
 	fset := token.NewFileSet()
-	file, err := parser.ParseFile(fset, path, src, 0)
-	if err != nil {
-		return nil, err
-	}
 	f := &c20Facts{}
 	problem := func(format string, a ...interface{}) {
 		f.problems = append(f.problems, oneLine(fmt.Sprintf(format, a...)))
 	}
 	ev := &c20Eval{fset: fset, vars: map[string]ast.Expr{}, facts: f}
-	var run *ast.FuncDecl
-	for _, d := range file.Decls {
-		switch v := d.(type) {
-		case *ast.GenDecl:
-			if v.Tok != token.VAR && v.Tok != token.CONST {
-				continue
-			}
-			for _, s := range v.Specs {
-				vs := s.(*ast.ValueSpec)
-				for i, n := range vs.Names {
-					if i < len(vs.Values) {
-						ev.vars[n.Name] = vs.Values[i]
+	funcs := map[string]*ast.FuncDecl{}
+	srcOf := map[*token.File][]byte{}
+	text := func(n ast.Node) string {
+		tf := fset.File(n.Pos())
+		return c20NodeText(fset, srcOf[tf], n)
+	}
+	var names []string
+	for _, e := range ents {
+		if !e.IsDir() && strings.HasSuffix(e.Name(), ".go") && !strings.HasSuffix(e.Name(), "_test.go") {
+			names = append(names, e.Name())
+		}
+	}
+	sort.Strings(names)
+	for _, n := range names {
+		path := filepath.Join(dir, n)
+		src, err := os.ReadFile(path)
+		if err != nil {
+			return nil, err
+		}
+		file, err := parser.ParseFile(fset, path, src, 0)
+		if err != nil {
+			return nil, err
+		}
+		srcOf[fset.File(file.Pos())] = src
+		for _, d := range file.Decls {
+			switch v := d.(type) {
+			case *ast.GenDecl:
+				if v.Tok != token.VAR && v.Tok != token.CONST {
+					continue
+				}
+				for _, sp := range v.Specs {
+					vs := sp.(*ast.ValueSpec)
+					for i, nm := range vs.Names {
+						if i < len(vs.Values) {
+							ev.vars[nm.Name] = vs.Values[i]
+						}
 					}
 				}
-			}
-		case *ast.FuncDecl:
-			if v.Name.Name == "RunPackedBinary" && v.Recv == nil {
-				run = v
+			case *ast.FuncDecl:
+				if v.Recv == nil && v.Body != nil {
+					funcs[v.Name.Name] = v
+				}
 			}
 		}
 	}
@@ -327,7 +364,7 @@ func c20Extract() (*c20Facts, error) {
 		}
 	}
 	if pm, ok := ev.vars["packmarker"]; ok {
-		f.pieceSrc = c20NodeText(fset, src, pm)
+		f.pieceSrc = text(pm)
 		if f.pieces, err = ev.str(pm); err != nil {
 			problem("packmarker: %v", err)
 			f.pieces = nil
@@ -348,7 +385,8 @@ func c20Extract() (*c20Facts, error) {
 		}
 		n, s := ref, fmt.Sprint(ref)
 		if d, ok := ev.vars[nm]; !ok {
-			problem("package variable %v not found", nm)
+			// not an error: the buffer size may be written differently; bufSize below decides
+			s += " /- NOT TRANSLATED: no package variable " + nm + " -/"
 		} else if n2, s2, err := ev.num(d); err != nil {
 			problem("%v: %v", nm, err)
 		} else {
@@ -360,20 +398,42 @@ func c20Extract() (*c20Facts, error) {
 			f.b2, f.b2Lean = n, s
 		}
 	}
-	// inside RunPackedBinary: the buffer handed to the first f.Read, the number of bytes
-	// kept (`overlap = copy(buf, window[len(window)-K:])`, `K := …`), unicode.X calls
-	bufName := ""
-	makes := map[string]ast.Expr{}
-	var keepExpr ast.Expr
-	keepName := ""
-	defines := map[string]ast.Expr{}
-	funcs := map[string]bool{}
-	if run == nil {
+
+	// functions reachable from RunPackedBinary (same package), breadth first
+	var order []*ast.FuncDecl
+	if root, ok := funcs["RunPackedBinary"]; !ok {
 		problem("func RunPackedBinary not found")
 	} else {
-		ast.Inspect(run.Body, func(n ast.Node) bool {
-			switch v := n.(type) {
-			case *ast.AssignStmt:
+		seen := map[string]bool{"RunPackedBinary": true}
+		order = append(order, root)
+		for i := 0; i < len(order); i++ {
+			ast.Inspect(order[i].Body, func(n ast.Node) bool {
+				if c, ok := n.(*ast.CallExpr); ok {
+					if id, ok := c.Fun.(*ast.Ident); ok {
+						if fd, ok := funcs[id.Name]; ok && !seen[id.Name] {
+							seen[id.Name] = true
+							order = append(order, fd)
+						}
+					}
+				}
+				return true
+			})
+		}
+	}
+
+	// per function: local definitions, makes; the first Read into a made buffer; the carry-over copy
+	type fnInfo struct {
+		defines map[string]ast.Expr
+		makes   map[string]ast.Expr
+	}
+	var bufExpr, keepExpr ast.Expr
+	bufName, keepName := "", ""
+	var keepLocals map[string]ast.Expr
+	keepCopyFound := false
+	for _, fd := range order {
+		info := fnInfo{map[string]ast.Expr{}, map[string]ast.Expr{}}
+		ast.Inspect(fd.Body, func(n ast.Node) bool {
+			if v, ok := n.(*ast.AssignStmt); ok {
 				for i, l := range v.Lhs {
 					id, ok := l.(*ast.Ident)
 					if !ok || i >= len(v.Rhs) {
@@ -381,38 +441,47 @@ func c20Extract() (*c20Facts, error) {
 					}
 					if c, ok := v.Rhs[i].(*ast.CallExpr); ok {
 						if fn, ok := c.Fun.(*ast.Ident); ok && fn.Name == "make" && len(c.Args) >= 2 {
-							makes[id.Name] = c.Args[1]
+							info.makes[id.Name] = c.Args[1]
 						}
 					}
 					if v.Tok == token.DEFINE {
-						if _, dup := defines[id.Name]; !dup {
-							defines[id.Name] = v.Rhs[i]
+						if _, dup := info.defines[id.Name]; !dup {
+							info.defines[id.Name] = v.Rhs[i]
 						}
 					}
 				}
-			case *ast.CallExpr:
-				if fn, ok := v.Fun.(*ast.Ident); ok && fn.Name == "copy" && len(v.Args) == 2 && keepName == "" {
-					if sl, ok := v.Args[1].(*ast.SliceExpr); ok && sl.High == nil {
-						if be, ok := sl.Low.(*ast.BinaryExpr); ok && be.Op == token.SUB {
-							if k, ok := be.Y.(*ast.Ident); ok {
-								keepName = k.Name
-							}
-						}
+			}
+			return true
+		})
+		ast.Inspect(fd.Body, func(n ast.Node) bool {
+			c, ok := n.(*ast.CallExpr)
+			if !ok {
+				return true
+			}
+			// X.Read(buf) / X.Read(buf[k:]) with buf := make([]byte, E) in this function
+			if sel, ok := c.Fun.(*ast.SelectorExpr); ok && sel.Sel.Name == "Read" && len(c.Args) == 1 && bufExpr == nil {
+				a := c.Args[0]
+				if sl, ok := a.(*ast.SliceExpr); ok {
+					a = sl.X
+				}
+				if id, ok := a.(*ast.Ident); ok {
+					if m, ok := info.makes[id.Name]; ok {
+						bufName, bufExpr = id.Name, m
 					}
 				}
-				if sel, ok := v.Fun.(*ast.SelectorExpr); ok {
-					if x, ok := sel.X.(*ast.Ident); ok {
-						if x.Name == "unicode" {
-							funcs[sel.Sel.Name] = true
-						}
-						if sel.Sel.Name == "Read" && bufName == "" && len(v.Args) == 1 {
-							a := v.Args[0]
-							if sl, ok := a.(*ast.SliceExpr); ok {
-								a = sl.X
-							}
-							if id, ok := a.(*ast.Ident); ok {
-								bufName = id.Name
-							}
+			}
+			// copy(buf, W[len(W)-K:]) : K names the number of bytes carried over
+			if fn, ok := c.Fun.(*ast.Ident); ok && fn.Name == "copy" && len(c.Args) == 2 && !keepCopyFound {
+				if sl, ok := c.Args[1].(*ast.SliceExpr); ok && sl.High == nil {
+					if be, ok := sl.Low.(*ast.BinaryExpr); ok && be.Op == token.SUB {
+						keepCopyFound = true
+						keepLocals = info.defines
+						if k, ok := be.Y.(*ast.Ident); ok {
+							keepName = k.Name
+							keepExpr = info.defines[k.Name]
+						} else {
+							keepName = "(expression)"
+							keepExpr = be.Y
 						}
 					}
 				}
@@ -420,86 +489,254 @@ func c20Extract() (*c20Facts, error) {
 			return true
 		})
 	}
-	if keepName != "" {
-		keepExpr = defines[keepName]
-	}
-	f.bufSize, f.bufLean, f.bufSrc = c20Ref.bufSize, fmt.Sprint(c20Ref.bufSize), "(NOT TRANSLATED: reference value)"
-	if be, ok := makes[bufName]; !ok {
-		problem("no make([]byte, …) found for the buffer %q handed to Read", bufName)
-	} else if n, s, err := ev.num(be); err != nil {
-		problem("size of the read buffer (%v): %v", c20NodeText(fset, src, be), err)
+	f.bufSize, f.bufLean, f.bufSrc = c20Ref.bufSize, fmt.Sprint(c20Ref.bufSize), "NOT TRANSLATED: reference value"
+	if bufExpr == nil {
+		problem("no Read into a buffer made with make([]byte, …) found in the functions reachable from RunPackedBinary")
+	} else if n, s, err := ev.num(bufExpr); err != nil {
+		problem("size of the read buffer (%v): %v", text(bufExpr), err)
 	} else {
 		f.bufSize, f.bufLean = n, s
-		f.bufSrc = bufName + " := make([]byte, " + c20NodeText(fset, src, be) + ")"
+		f.bufSrc = bufName + " := make([]byte, " + text(bufExpr) + ")"
 	}
+	f.keep, f.keepLean, f.keepSrc = c20Ref.keep, fmt.Sprint(c20Ref.keep), "NOT TRANSLATED: reference value"
 	switch {
-	case keepName == "":
-		f.keep, f.keepLean, f.keepSrc = 0, "0", "(no `copy(buf, window[len(window)-keep:])` in RunPackedBinary: nothing of a block is kept)"
+	case !keepCopyFound:
+		problem("no carry-over `copy(buf, window[len(window)-keep:])` recognised in the functions reachable from RunPackedBinary")
 	case keepExpr == nil:
-		problem("no definition `%v := …` found for the number of bytes kept", keepName)
-		f.keep, f.keepLean, f.keepSrc = c20Ref.keep, fmt.Sprint(c20Ref.keep), "(NOT TRANSLATED: reference value)"
+		problem("no definition `%v := …` found for the number of bytes carried over", keepName)
 	default:
-		if n, s, err := ev.num(keepExpr); err != nil {
-			problem("%v := %v: %v", keepName, c20NodeText(fset, src, keepExpr), err)
-			f.keep, f.keepLean, f.keepSrc = c20Ref.keep, fmt.Sprint(c20Ref.keep), "(NOT TRANSLATED: reference value)"
+		ev.locals = keepLocals
+		n, s, err := ev.num(keepExpr)
+		ev.locals = nil
+		if err != nil {
+			problem("%v := %v: %v", keepName, text(keepExpr), err)
 		} else {
 			f.keep, f.keepLean = n, s
-			f.keepSrc = keepName + " := " + c20NodeText(fset, src, keepExpr)
+			f.keepSrc = keepName + " := " + text(keepExpr)
 		}
 	}
-	for k := range funcs {
-		f.skipFuncs = append(f.skipFuncs, k)
+
+	// the skip loop: an `if … { break }` whose condition is a disjunction containing terms that
+	// are pure predicates over unicode.IsX calls (stop when a term holds), or a `for cond { … }`
+	// whose condition is a conjunction containing such terms (skip while they hold)
+	var pred func(x ast.Expr, b byte, depth int) (bool, bool)
+	pred = func(x ast.Expr, b byte, depth int) (bool, bool) {
+		if depth > 6 {
+			return false, false
+		}
+		switch v := x.(type) {
+		case *ast.ParenExpr:
+			return pred(v.X, b, depth)
+		case *ast.Ident:
+			if v.Name == "true" || v.Name == "false" {
+				return v.Name == "true", true
+			}
+		case *ast.UnaryExpr:
+			if v.Op == token.NOT {
+				r, ok := pred(v.X, b, depth)
+				return !r, ok
+			}
+		case *ast.BinaryExpr:
+			if v.Op == token.LAND || v.Op == token.LOR {
+				l, ok1 := pred(v.X, b, depth)
+				r, ok2 := pred(v.Y, b, depth)
+				if !ok1 || !ok2 {
+					return false, false
+				}
+				if v.Op == token.LAND {
+					return l && r, true
+				}
+				return l || r, true
+			}
+		case *ast.CallExpr:
+			if sel, ok := v.Fun.(*ast.SelectorExpr); ok && len(v.Args) == 1 {
+				if x, ok := sel.X.(*ast.Ident); ok && x.Name == "unicode" {
+					fn, ok := map[string]func(rune) bool{"IsSpace": unicode.IsSpace, "IsControl": unicode.IsControl,
+						"IsPrint": unicode.IsPrint, "IsGraphic": unicode.IsGraphic, "IsLetter": unicode.IsLetter,
+						"IsDigit": unicode.IsDigit, "IsPunct": unicode.IsPunct}[sel.Sel.Name]
+					if ok {
+						return fn(rune(b)), true
+					}
+				}
+			}
+			// helper of the same package: one parameter, body = `return <predicate>`
+			if id, ok := v.Fun.(*ast.Ident); ok && len(v.Args) == 1 {
+				if fd, ok := funcs[id.Name]; ok && len(fd.Body.List) == 1 && fd.Type.Params.NumFields() == 1 {
+					if rs, ok := fd.Body.List[0].(*ast.ReturnStmt); ok && len(rs.Results) == 1 {
+						return pred(rs.Results[0], b, depth+1)
+					}
+				}
+			}
+		}
+		return false, false
 	}
-	sort.Strings(f.skipFuncs)
-	f.hasSkipLoop = len(f.skipFuncs) > 0
+	mentionsUnicode := func(x ast.Node) bool {
+		found := false
+		ast.Inspect(x, func(n ast.Node) bool {
+			if c, ok := n.(*ast.CallExpr); ok {
+				if _, ok := pred(c, 0, 0); ok {
+					found = true
+				}
+			}
+			return !found
+		})
+		return found
+	}
+	var flatten func(x ast.Expr, op token.Token) []ast.Expr
+	flatten = func(x ast.Expr, op token.Token) []ast.Expr {
+		if p, ok := x.(*ast.ParenExpr); ok {
+			return flatten(p.X, op)
+		}
+		if be, ok := x.(*ast.BinaryExpr); ok && be.Op == op {
+			return append(flatten(be.X, op), flatten(be.Y, op)...)
+		}
+		return []ast.Expr{x}
+	}
+	skipFound := false
+	var skipTab [256]bool
+	for _, fd := range order {
+		if skipFound {
+			break
+		}
+		ast.Inspect(fd.Body, func(n ast.Node) bool {
+			if skipFound {
+				return false
+			}
+			switch v := n.(type) {
+			case *ast.IfStmt:
+				if !mentionsUnicode(v.Cond) {
+					return true
+				}
+				hasBreak := false
+				for _, st := range v.Body.List {
+					if br, ok := st.(*ast.BranchStmt); ok && br.Tok == token.BREAK {
+						hasBreak = true
+					}
+				}
+				if !hasBreak {
+					problem("condition with unicode predicates that is not `if … { break }`: %v", text(v.Cond))
+					return true
+				}
+				var terms []ast.Expr
+				for _, t := range flatten(v.Cond, token.LOR) {
+					if mentionsUnicode(t) {
+						if _, ok := pred(t, 0, 0); !ok {
+							problem("skip condition term not translated: %v", text(t))
+							return true
+						}
+						terms = append(terms, t)
+					}
+				}
+				for b := 0; b < 256; b++ {
+					stop := false
+					for _, t := range terms {
+						r, _ := pred(t, byte(b), 0)
+						stop = stop || r
+					}
+					skipTab[b] = !stop
+				}
+				skipFound = true
+				f.skipSrc = "stop when " + text(v.Cond)
+			case *ast.ForStmt:
+				if v.Cond == nil || !mentionsUnicode(v.Cond) {
+					return true
+				}
+				var terms []ast.Expr
+				for _, t := range flatten(v.Cond, token.LAND) {
+					if mentionsUnicode(t) {
+						if _, ok := pred(t, 0, 0); !ok {
+							problem("skip condition term not translated: %v", text(t))
+							return true
+						}
+						terms = append(terms, t)
+					}
+				}
+				for b := 0; b < 256; b++ {
+					skip := true
+					for _, t := range terms {
+						r, _ := pred(t, byte(b), 0)
+						skip = skip && r
+					}
+					skipTab[b] = skip
+				}
+				skipFound = true
+				f.skipSrc = "skip while " + text(v.Cond)
+			}
+			return true
+		})
+	}
+	if !skipFound {
+		problem("no skip loop over unicode predicates recognised in the functions reachable from RunPackedBinary")
+		for b := 0; b < 256; b++ {
+			skipTab[b] = unicode.IsSpace(rune(b)) || unicode.IsControl(rune(b))
+		}
+		f.skipSrc = "NOT TRANSLATED: reference table (unicode.IsSpace || unicode.IsControl)"
+	}
+	f.skipTab = skipTab
 
 	// cli/ecal.go: the first statement of main is the unconditional call tool.RunPackedBinary()
+	f.mainFirst = true
 	mpath := filepath.Join(repoDir(), "cli", "ecal.go")
 	if msrc, err := os.ReadFile(mpath); err != nil {
 		problem("cli/ecal.go: %v", err)
 	} else if mfile, err := parser.ParseFile(fset, mpath, msrc, 0); err != nil {
 		problem("cli/ecal.go: %v", err)
 	} else {
-		f.mainSrc = "(func main not found)"
-		for _, d := range mfile.Decls {
-			fd, ok := d.(*ast.FuncDecl)
-			if !ok || fd.Name.Name != "main" || fd.Recv != nil || fd.Body == nil {
-				continue
-			}
-			f.mainSrc = "(main is empty)"
-			if len(fd.Body.List) == 0 {
-				break
-			}
-			first := fd.Body.List[0]
-			f.mainSrc = c20NodeText(fset, msrc, first)
-			if len(f.mainSrc) > 120 {
-				f.mainSrc = f.mainSrc[:120] + " …"
-			}
-			if es, ok := first.(*ast.ExprStmt); ok {
+		isCall := func(st ast.Stmt) bool {
+			if es, ok := st.(*ast.ExprStmt); ok {
 				if c, ok := es.X.(*ast.CallExpr); ok && len(c.Args) == 0 {
 					if sel, ok := c.Fun.(*ast.SelectorExpr); ok && sel.Sel.Name == "RunPackedBinary" {
-						if x, ok := sel.X.(*ast.Ident); ok && x.Name == "tool" {
-							f.mainFirst = true
-						}
+						return true
 					}
 				}
+			}
+			return false
+		}
+		f.mainSrc = "NOT TRANSLATED (func main not found): reference value"
+		var mainFn *ast.FuncDecl
+		for _, d := range mfile.Decls {
+			if fd, ok := d.(*ast.FuncDecl); ok && fd.Name.Name == "main" && fd.Recv == nil && fd.Body != nil {
+				mainFn = fd
+			}
+		}
+		switch {
+		case mainFn == nil:
+			problem("cli/ecal.go: func main not found")
+		case len(mainFn.Body.List) > 0 && isCall(mainFn.Body.List[0]):
+			f.mainSrc = c20NodeText(fset, msrc, mainFn.Body.List[0])
+		default:
+			topLevel, nested := false, false
+			for _, st := range mainFn.Body.List {
+				if isCall(st) {
+					topLevel = true
+				}
+			}
+			ast.Inspect(mainFn.Body, func(n ast.Node) bool {
+				if c, ok := n.(*ast.CallExpr); ok {
+					if sel, ok := c.Fun.(*ast.SelectorExpr); ok && sel.Sel.Name == "RunPackedBinary" {
+						nested = true
+					}
+				}
+				return true
+			})
+			first := ""
+			if len(mainFn.Body.List) > 0 {
+				first = c20NodeText(fset, msrc, mainFn.Body.List[0])
+				if len(first) > 120 {
+					first = first[:120] + " …"
+				}
+			}
+			if nested && !topLevel {
+				// positively established: the call exists only inside a compound statement
+				f.mainFirst = false
+				f.mainSrc = "the call is nested in: " + first
+			} else {
+				problem("cli/ecal.go: the first statement of main is not the call tool.RunPackedBinary() (%v); not established whether it is reached unconditionally", first)
+				f.mainSrc = "NOT TRANSLATED: reference value; first statement: " + first
 			}
 		}
 	}
 	return f, nil
-}
-
-func c20SkipGo(f *c20Facts, b byte) bool {
-	r := false
-	for _, fn := range f.skipFuncs {
-		switch fn {
-		case "IsSpace":
-			r = r || unicode.IsSpace(rune(b))
-		case "IsControl":
-			r = r || unicode.IsControl(rune(b))
-		}
-	}
-	return r
 }
 
 func c20LeanBytes(b []byte) string {
@@ -529,14 +766,14 @@ func c20LeanFile(f *c20Facts) string {
 	fmt.Fprintf(&b, "/-- bytes of a block kept for the next window: `%s` -/\ndef keep : Nat := %s\n\n", f.keepSrc, f.keepLean)
 	var tab []string
 	for i := 0; i < 256; i++ {
-		if c20SkipGo(f, byte(i)) {
+		if f.skipTab[i] {
 			tab = append(tab, "true")
 		} else {
 			tab = append(tab, "false")
 		}
 	}
-	fmt.Fprintf(&b, "/-- for every byte value: is it skipped after the marker? Computed with Go's unicode.%s\n    (the functions RunPackedBinary calls) -/\ndef skipTable : List Bool :=\n  [%s]\n\n",
-		strings.Join(f.skipFuncs, " || unicode."), strings.Join(tab, ", "))
+	fmt.Fprintf(&b, "/-- for every byte value: is it skipped after the marker? Evaluated from the predicate of the skip loop\n    with Go's unicode functions: `%s` -/\ndef skipTable : List Bool :=\n  [%s]\n\n",
+		strings.ReplaceAll(strings.ReplaceAll(f.skipSrc, "-/", "- /"), "/-", "/ -"), strings.Join(tab, ", "))
 	var probs []string
 	for _, p := range f.problems {
 		probs = append(probs, strconv.Quote(strings.Map(func(r rune) rune {
@@ -573,7 +810,10 @@ func c20Tool(args []string) int {
 		}
 		return 0
 	}
-	fmt.Printf("marker=%q b1=%d b2=%d bufSize=%d keep=%d skip=%v\n", f.marker, f.b1, f.b2, f.bufSize, f.keep, f.skipFuncs)
+	fmt.Printf("marker=%q b1=%d b2=%d bufSize=%d keep=%d skip=%v\n", f.marker, f.b1, f.b2, f.bufSize, f.keep, f.skipSrc)
+	for _, p := range f.problems {
+		fmt.Println("problem:", p)
+	}
 	return 0
 }
 
@@ -839,7 +1079,7 @@ func c20RunProc(fs []string) string {
 		return "ERR pack " + oneLine(err.Error())
 	}
 	os.Chmod(dst, 0755)
-	ctx, cancel := context.WithTimeout(context.Background(), 40*time.Second)
+	ctx, cancel := context.WithTimeout(context.Background(), 6*time.Second) // below the per-case limit
 	defer cancel()
 	cmd := exec.CommandContext(ctx, dst, args...)
 	cmd.Dir = cwd
@@ -848,7 +1088,8 @@ func c20RunProc(fs []string) string {
 	out, err := cmd.CombinedOutput()
 	code := 0
 	if ctx.Err() != nil {
-		return fmt.Sprintf("proc srcmarker=%d timeout", srcmarker)
+		// reported like a hang of the harness: the check re-runs such a case alone before it is believed
+		return "HANG child process did not end within 6s"
 	}
 	if err != nil {
 		ee, ok := err.(*exec.ExitError)
@@ -1061,8 +1302,15 @@ func c20Gen(g *Gen) {
 	if f.b1+f.b2 > stride {
 		stride = f.b1 + f.b2
 	}
+	// Pieces of the source the extractor could not translate (reference values stand in for
+	// them): not an alarm by itself, but the model is then tied to the code by the sweep
+	// alone, so the sweep is amplified to the thorough one in the same run.
+	amplified := g.Thorough() || len(f.problems) > 0
+	if len(f.problems) > 0 {
+		g.Count("sweep amplified: facts not translated")
+	}
 	periods := 3
-	if g.Thorough() {
+	if amplified {
 		periods = 6
 	}
 	limit := periods*stride + 2*len(M) + 8
@@ -1070,9 +1318,8 @@ func c20Gen(g *Gen) {
 		// the slice handed to Read becomes empty after the first block: the loop cannot make
 		// progress on any file longer than the buffer (model: hang). A few cases show it;
 		// the sweep would only wait for time-outs.
-		for _, n := range []int{0, f.bufSize, 4095} {
-			emit("no room in the buffer", true, n, 0, nil, "", 0, 3)
-		}
+		// (a hang costs the per-case time limit, and 10x that when the check re-runs it alone)
+		emit("no room in the buffer", true, 4095, 0, nil, "", 0, 3)
 		emit("no room in the buffer", false, 3*f.bufSize, 1, nil, "", 0, 0)
 		os.RemoveAll(c20Scratch)
 		return
@@ -1146,7 +1393,7 @@ func c20Gen(g *Gen) {
 	}
 	bounds := []int{f.bufSize, 2*f.bufSize - f.keep, f.b1, f.bufSize - f.keep, 2 * f.b1, f.b1 + f.bufSize}
 	gaps := []int{0, 1, len(M) - 1, 300}
-	if !g.Thorough() {
+	if !amplified {
 		gaps = gaps[:2]
 	}
 	seenB := map[int]bool{}
@@ -1163,7 +1410,7 @@ func c20Gen(g *Gen) {
 				}
 				for _, gap := range gaps {
 					kind := (pi + d + 1000) % 2
-					if g.Thorough() && (pi+gap)%3 == 2 {
+					if amplified && (pi+gap)%3 == 2 {
 						kind = 2
 					}
 					emit("partial marker", true, off+len(p)+gap, kind, []c20Plant{{off, p}}, "", 0, 11)
@@ -1224,7 +1471,7 @@ func c20Gen(g *Gen) {
 
 func init() {
 	register("C20", &Prop{
-		Timeout:          60 * time.Second,
+		Timeout:          8 * time.Second, // a HANG is re-run alone by the check with 10x this limit
 		Setup:            c20Setup,
 		Gen:              c20Gen,
 		Run:              c20Run,
